@@ -179,7 +179,8 @@ def run(ck: Check):
         bigsrc = ("import sys,os\nn=int(sys.argv[2]); s=(sys.stdout if sys.argv[1]=='out' else sys.stderr).buffer\n"
                   "blk=bytes(range(256))*4096\nwhile n>0:\n    s.write(blk[:n]); n-=len(blk)\ns.flush(); os._exit(0)\n")
         sizes_big = [(1 << 24) + 1, 1 << 26, (1 << 26) + 1] if quick else [(1 << k) + d for k in range(20, 28) for d in (-1, 0, 1)]
-        for nbytes in sizes_big:
+        from boundaries import with_mined
+        for nbytes in with_mined(sizes_big, 1 << 28, lo=1 << 12):
             for stream in ("out", "err"):
                 for use_files in ((False,) if quick else (False, True)):
                     prefix = os.path.join(work, "big") if use_files else None
